@@ -241,7 +241,7 @@ func TestC17(t *testing.T) {
 	curProp = "C17"
 	r := vf.NewRec("C17")
 	defer r.Finish(t)
-	guard.StartWatchdog(*vf.Out, "C17")
+	guard.StartWatchdog(*vf.Out, vf.Label("C17"))
 
 	for _, rf := range r.LoadReplays(t) {
 		var c caseC17
